@@ -68,7 +68,7 @@ Proof. split; bridge. Qed.
 Lemma b_win_iv : forall p l r, gen_win_start p l r = m_win_start p l /\ gen_win_stop p l r = m_win_stop p r.
 Proof. split; bridge. Qed.
 (* clip *)
-Lemma b_clip : forall size s t, gen_clip_start size s = m_clip_start s /\ gen_clip_stop size t = m_clip_stop size t.
+Lemma b_clip : forall size s t, gen_clip_start size s = m_clip_start size s /\ gen_clip_stop size t = m_clip_stop size t.
 Proof. split; bridge. Qed.
 Lemma b_geo_clip : forall size s t,
   gen_geo_clip_start size s = m_geo_clip_start size s /\ gen_geo_clip_stop size t = m_geo_clip_stop size t.
@@ -158,14 +158,14 @@ Qed.
 Lemma l_checks_negative : checks_negative_start = true.
 Proof. reflexivity. Qed.
 Lemma l_clip : forall szs es,
-  model_clip szs es = map (fun e => set_se e (m_clip_start (e_start e)) (m_clip_stop (size_of szs (e_chr e)) (e_stop e))) es.
+  model_clip szs es = map (fun e => set_se e (m_clip_start (size_of szs (e_chr e)) (e_start e)) (m_clip_stop (size_of szs (e_chr e)) (e_stop e))) es.
 Proof. reflexivity. Qed.
 Lemma l_extend : forall szs n es,
   model_extend szs n es = map (fun e => set_se e (m_extend_start (e_fwd e) (e_start e) (e_stop e) n)
                                                (m_extend_stop (e_fwd e) (e_start e) (e_stop e) n (size_of szs (e_chr e)))) es.
 Proof. intros. unfold model_extend. apply map_ext. intros e. unfold m_extend_start, m_extend_stop. destruct (e_fwd e); reflexivity. Qed.
 Lemma l_windows : forall szs l r es,
-  model_windows szs l r es = map (fun e => set_se e (m_clip_start (m_win_start (e_start e) l))
+  model_windows szs l r es = map (fun e => set_se e (m_clip_start (size_of szs (e_chr e)) (m_win_start (e_start e) l))
                                                    (m_clip_stop (size_of szs (e_chr e)) (m_win_stop (e_start e) r))) es.
 Proof. intros. unfold model_windows, model_clip. rewrite map_map. reflexivity. Qed.
 Lemma l_location : forall st w e,
